@@ -9,7 +9,9 @@
 import BumpProof.Arena.Step
 import BumpProof.Props.C11
 import BumpProof.Lemmas.CtrlBase
+import BumpProof.Lemmas.CtrlEx
 import BumpProof.Lemmas.CtrlState
+import BumpProof.Lemmas.CtrlRealloc
 
 namespace C13
 open Arena Rs Ctrl Lemmas
@@ -102,5 +104,221 @@ theorem step_deallocate_not_last (cfg : Cfg) (g : GState) (b : Nat) (blk : Block
   simp only [noPrepared, hp, Option.isNone_none, ↓reduceIte, R_pure_bind, hb, R_ok_bind,
     deallocate_not_last cfg g.s blk.addr blk.size hl]
   cases via <;> rfl
+
+/-! ## Part 3: the newest block is reclaimed — allocate, deallocate, allocate again -/
+
+/-- Upwards.  After a successful allocation of `L` (size a multiple of the minimum alignment) the block
+    is the newest one; deallocating it moves the position back to its address; allocating `L` again
+    returns the SAME address and leads to the SAME state as after the first allocation. -/
+theorem realloc_same_up (cfg : Cfg) (s s1 : State) (L : Layout) (p x : Nat)
+    (hup : cfg.up = true) (hd : cfg.deallocates = true)
+    (hv : C11.Valid true (bumpProps cfg s L Hints.custom)) (hms : s.minAlign ∣ L.size)
+    (h1 : tryCur cfg .alloc s L Hints.custom = .ok (some ((p, x), s1))) :
+    isLast cfg s1 p L.size = true ∧
+    ∃ s2, deallocate cfg s1 p L.size = .ok s2 ∧ curPos cfg s2 = p ∧
+      tryCur cfg .alloc s2 L Hints.custom = .ok (some ((p, x), s1)) := by
+  have hmOk : MinAlignOk s.minAlign := hv.1.min_align
+  have hm := hmOk.p2
+  have ha : P2 L.align := layout_valid_p2 hv.1.layout
+  have hnd : ¬ C11.Dummy (bumpProps cfg s L Hints.custom) := by
+    intro hdum
+    rw [tryCur_alloc_up hup hv] at h1
+    rw [← bumpProps_start cfg s L Hints.custom, ← bumpProps_end cfg s L Hints.custom, hdum.1,
+      bumpUp_dummy ha.pos] at h1
+    cases h1
+  obtain ⟨i, c, hc, hreg⟩ := regular_of_success hv hnd
+  have hfr := hc.freeRange cfg
+  rw [hup] at hfr
+  simp only [↓reduceIte] at hfr
+  unfold C11.Regular at hreg
+  simp only [bumpProps_start, bumpProps_end, bumpProps_min, hfr, ↓reduceIte] at hreg
+  obtain ⟨hle, hcap, hmpos, h16⟩ := hreg
+  have hs0 : c.pos ≠ 0 := by have := hv.1.start_ne; rw [bumpProps_start, hfr] at this; exact this
+  have he64 : c.contentEnd cfg < 2 ^ 64 := by have := hv.1.end_lt; rw [bumpProps_end, hfr] at this; exact this
+  have he16 := end_add_16 h16 he64
+  have he0 : c.contentEnd cfg ≠ 0 := by have := hv.1.end_ne; rw [bumpProps_end, hfr] at this; exact this
+  rw [tryCur_alloc_up hup hv, hfr] at h1
+  unfold Spec.bumpUp at h1
+  simp only at h1
+  split at h1
+  · rename_i hfit
+    simp only [Option.map_some, Except.ok.injEq, Option.some.injEq, Prod.mk.injEq] at h1
+    obtain ⟨⟨hp, hx⟩, hs1⟩ := h1
+    have hmp : s.minAlign ∣ p := by rw [← hp]; exact hm.dvd_upAlign ha hmpos
+    have hap : L.align ∣ p := by rw [← hp]; exact upAlign_dvd _ _
+    have hpos_le : c.pos ≤ p := by rw [← hp]; exact le_upAlign _ ha.pos
+    rw [hp] at hfit hs1
+    have hnp : Spec.upAlign (p + L.size) s.minAlign = p + L.size :=
+      upAlign_add_self hm.pos hmp hms
+    rw [hnp] at hs1
+    have hc1 : CurChunk s1 i { c with pos := p + L.size } := by rw [← hs1]; exact hc.setCurPos _
+    have hs1' : s1 = setPos s i (p + L.size) := by rw [← hs1, setCurPos_chunk hc.cur]
+    have hlast : isLast cfg s1 p L.size = true := by
+      unfold isLast
+      rw [hup, hc1.curPos cfg]
+      simp
+    refine ⟨hlast, setCurPos s1 p, ?_, (hc1.setCurPos p).curPos cfg, ?_⟩
+    · unfold deallocate
+      rw [hd, hlast]
+      unfold deallocAssumeLast
+      have hle' := hmOk.le
+      have hgt : ¬ p > Rs.MAX := by rw [MAX_eq]; omega
+      simp only [hd, hc1.cur, hup, Bool.not_true, Bool.false_eq_true, ↓reduceIte, hgt,
+        lib_align_pos_up hm hmOk.lt64 (show p + (s.minAlign - 1) < 2 ^ 64 by omega), liftM_ok, R_ok_bind,
+        upAlign_eq_self hm.pos hmp, hs1.symm ▸ setCurPos_minAlign s _]
+      rfl
+    · have hs2 : setCurPos s1 p = setPos s i p := by
+        rw [setCurPos_chunk hc1.cur, hs1', setPos_setPos]
+      have hc2 : CurChunk (setPos s i p) i { c with pos := p } := by
+        rw [← setCurPos_chunk hc.cur]; exact hc.setCurPos p
+      have hfr2 : freeRange cfg (setPos s i p) = (p, c.contentEnd cfg) := by
+        rw [hc2.freeRange cfg, hup]; rfl
+      have hv2 : C11.Valid true (bumpProps cfg (setPos s i p) L Hints.custom) :=
+        valid_of_regular hfr2 (by omega) he0 (by omega) he64 hmOk hv.1.layout (truthful_custom L)
+          ⟨by omega, by omega, hmp, h16⟩
+      rw [hs2, tryCur_alloc_up hup hv2, hfr2]
+      have hup1 : Spec.upAlign p L.align = p := upAlign_eq_self ha.pos hap
+      unfold Spec.bumpUp
+      simp only [hup1, hfit, ↓reduceIte, Option.map_some, setPos_minAlign, hnp]
+      rw [setCurPos_chunk hc2.cur, setPos_setPos, ← hs1', hx]
+  · cases h1
+
+/-- Downwards: the same law.  (After the deallocation the position is the END of the block, i.e.
+    padding that the first allocation needed below the old position is not given back — and need
+    not be: the next allocation of `L` lands on the same address.) -/
+theorem realloc_same_down (cfg : Cfg) (s s1 : State) (L : Layout) (p x : Nat)
+    (hup : cfg.up = false) (hd : cfg.deallocates = true)
+    (hv : C11.Valid false (bumpProps cfg s L Hints.custom)) (hms : s.minAlign ∣ L.size)
+    (h1 : tryCur cfg .alloc s L Hints.custom = .ok (some ((p, x), s1))) :
+    isLast cfg s1 p L.size = true ∧
+    ∃ s2, deallocate cfg s1 p L.size = .ok s2 ∧ curPos cfg s2 = p + L.size ∧
+      tryCur cfg .alloc s2 L Hints.custom = .ok (some ((p, x), s1)) := by
+  have hmOk : MinAlignOk s.minAlign := hv.1.min_align
+  have hm := hmOk.p2
+  have ha : P2 L.align := layout_valid_p2 hv.1.layout
+  have hnd : ¬ C11.Dummy (bumpProps cfg s L Hints.custom) := by
+    intro hdum
+    rw [tryCur_alloc_down hup hv] at h1
+    rw [← bumpProps_start cfg s L Hints.custom, ← bumpProps_end cfg s L Hints.custom, hdum.1,
+      bumpDown_dummy] at h1
+    cases h1
+  obtain ⟨i, c, hc, hreg⟩ := regular_of_success hv hnd
+  have hfr := hc.freeRange cfg
+  rw [hup] at hfr
+  simp only [Bool.false_eq_true, ↓reduceIte] at hfr
+  unfold C11.Regular at hreg
+  simp only [bumpProps_start, bumpProps_end, bumpProps_min, hfr, Bool.false_eq_true, ↓reduceIte] at hreg
+  obtain ⟨hle, hcap, h16, hmpos⟩ := hreg
+  have hs0 : c.contentStart cfg ≠ 0 := by
+    have := hv.1.start_ne; rw [bumpProps_start, hfr] at this; exact this
+  have he64 : c.pos < 2 ^ 64 := by have := hv.1.end_lt; rw [bumpProps_end, hfr] at this; exact this
+  have hM : P2 (Nat.max L.align s.minAlign) := ha.max hm
+  have hmM : s.minAlign ∣ Nat.max L.align s.minAlign := dvd_max_right ha hm
+  have haM : L.align ∣ Nat.max L.align s.minAlign := dvd_max_left ha hm
+  rw [tryCur_alloc_down hup hv, hfr] at h1
+  unfold Spec.bumpDown at h1
+  simp only at h1
+  split at h1
+  · rename_i hsz
+    split at h1
+    · rename_i hfit
+      simp only [Option.map_some, Except.ok.injEq, Option.some.injEq, Prod.mk.injEq] at h1
+      obtain ⟨⟨hp, hx⟩, hs1⟩ := h1
+      have hMp : Nat.max L.align s.minAlign ∣ p := by rw [← hp]; exact downAlign_dvd _ _
+      have hmp : s.minAlign ∣ p := Nat.dvd_trans hmM hMp
+      have hple : p ≤ c.pos - L.size := by rw [← hp]; exact downAlign_le _ _
+      rw [hp] at hfit hs1
+      have hc1 : CurChunk s1 i { c with pos := p } := by rw [← hs1]; exact hc.setCurPos _
+      have hs1' : s1 = setPos s i p := by rw [← hs1, setCurPos_chunk hc.cur]
+      have hlast : isLast cfg s1 p L.size = true := by
+        unfold isLast
+        rw [hup, hc1.curPos cfg]
+        simp
+      have hmps : s.minAlign ∣ p + L.size := (Nat.dvd_add_right hmp).2 hms
+      refine ⟨hlast, setCurPos s1 (p + L.size), ?_, (hc1.setCurPos _).curPos cfg, ?_⟩
+      · unfold deallocate
+        rw [hd, hlast]
+        unfold deallocAssumeLast
+        have hgt : ¬ p + L.size > Rs.MAX := by rw [MAX_eq]; omega
+        simp only [hd, hc1.cur, hup, Bool.not_true, Bool.false_eq_true, ↓reduceIte, hgt,
+          lib_align_pos_down hm hmOk.lt64 (show p + L.size < 2 ^ 64 by omega), liftM_ok, R_ok_bind,
+          downAlign_eq_self hmps, hs1.symm ▸ setCurPos_minAlign s _]
+        rfl
+      · have hs2 : setCurPos s1 (p + L.size) = setPos s i (p + L.size) := by
+          rw [setCurPos_chunk hc1.cur, hs1', setPos_setPos]
+        have hc2 : CurChunk (setPos s i (p + L.size)) i { c with pos := p + L.size } := by
+          rw [← setCurPos_chunk hc.cur]; exact hc.setCurPos _
+        have hfr2 : freeRange cfg (setPos s i (p + L.size)) = (c.contentStart cfg, p + L.size) := by
+          rw [hc2.freeRange cfg, hup]; rfl
+        have hv2 : C11.Valid false (bumpProps cfg (setPos s i (p + L.size)) L Hints.custom) :=
+          valid_of_regular hfr2 hs0 (by omega) (by omega) (by omega) hmOk hv.1.layout (truthful_custom L)
+            ⟨by omega, by omega, h16, hmps⟩
+        rw [hs2, tryCur_alloc_down hup hv2, hfr2]
+        have h3 : p + L.size - L.size = p := by omega
+        have h4 : Spec.downAlign p (Nat.max L.align s.minAlign) = p := downAlign_eq_self hMp
+        unfold Spec.bumpDown
+        simp only [Nat.le_add_left, h3, h4, hfit, ↓reduceIte, Option.map_some, setPos_minAlign]
+        rw [setCurPos_chunk hc2.cur, setPos_setPos, ← hs1', hx]
+    · cases h1
+  · cases h1
+
+/-! ## Part 4: growing the newest block upwards happens in place -/
+
+/-- upward arena, newest block, alignment fits, room left in the chunk: `grow` returns the SAME address,
+    copies nothing, and only moves the position to the (aligned) new end of the block -/
+theorem grow_in_place_up (cfg : Cfg) (s : State) (ptr oldSize : Nat) (newL : Layout) (i : Nat) (c : Chunk)
+    (hup : cfg.up = true) (hcur : s.cur = .chunk i) (hget : s.chunks[i]? = some c)
+    (hm : MinAlignOk s.minAlign)
+    (hlast : isLast cfg s ptr oldSize = true) (hfit : alignFits ptr newL.align = true)
+    (hsz : oldSize ≤ newL.size) (hroom : ptr + newL.size ≤ c.contentEnd cfg)
+    (hend : c.contentEnd cfg + 16 ≤ 2 ^ 64) :
+    grow cfg s ptr oldSize newL = .ok (setCurPos s (Spec.upAlign (ptr + newL.size) s.minAlign), .ok ptr) := by
+  have hc : CurChunk s i c := ⟨hcur, hget⟩
+  have hle := hm.le
+  unfold grow
+  have ha : Rs.assert (decide (newL.size ≥ oldSize)) = .ok () := assert_dec hsz
+  have hrem : newL.size ≤ c.contentEnd cfg - ptr := by omega
+  simp only [ha, liftM_ok, R_ok_bind, hup, hlast, hfit, Bool.and_self, ↓reduceIte, hc.curChunk?,
+    sub_ok (show ptr ≤ c.contentEnd cfg by omega), hrem,
+    add_ok' (show ptr + newL.size < 2 ^ 64 by omega),
+    lib_up_align_eq hm.p2 hm.lt64 (show ptr + newL.size + (s.minAlign - 1) < 2 ^ 64 by omega)]
+  rfl
+
+/-- … and the new position stays inside the chunk -/
+theorem grow_in_place_pos (cfg : Cfg) (s : State) (ptr : Nat) (newL : Layout) (c : Chunk)
+    (hm : MinAlignOk s.minAlign) (hroom : ptr + newL.size ≤ c.contentEnd cfg)
+    (h16 : 16 ∣ c.contentEnd cfg) :
+    ptr + newL.size ≤ Spec.upAlign (ptr + newL.size) s.minAlign ∧
+    Spec.upAlign (ptr + newL.size) s.minAlign ≤ c.contentEnd cfg :=
+  ⟨le_upAlign _ hm.pos,
+   upAlign_le_of_dvd hm.pos (Nat.dvd_trans (hm.p2.dvd_of_le P2.sixteen hm.le) h16) hroom⟩
+
+/-! ## Non-vacuity: the hypotheses hold on concrete states (`Lemmas/CtrlEx.lean`) -/
+
+example : shrink { wCfg with shrinks := false } exUp 0x10030 16 { size := 8, align := 8 } = .ok (exUp, .ok (0x10030, 16)) :=
+  shrink_optout _ _ _ _ _ rfl (by decide) rfl
+
+example : stepCore wCfg exG (.deallocate 0 .plain) = .ok ({ exG with s := removeBlock exG.s 0 }, .unit) :=
+  step_deallocate_not_last _ _ 0 exBlk _ rfl rfl rfl
+
+example : shrink wCfg exG.s exBlk.addr exBlk.size { size := 8, align := 8 } = .ok (exG.s, .ok (exBlk.addr, exBlk.size)) :=
+  shrink_not_last _ _ _ _ _ (by decide) rfl rfl
+
+/-- upwards: allocate 24 bytes at 0x10040, deallocate, allocate again: 0x10040 again -/
+example : isLast wCfg (setCurPos exUp 0x10058) 0x10040 24 = true ∧
+    ∃ s2, deallocate wCfg (setCurPos exUp 0x10058) 0x10040 24 = .ok s2 ∧ curPos wCfg s2 = 0x10040 ∧
+      tryCur wCfg .alloc s2 exL Hints.custom = .ok (some ((0x10040, 0), setCurPos exUp 0x10058)) :=
+  realloc_same_up wCfg exUp _ exL 0x10040 0 rfl rfl (exUp_valid exL exL_valid _ (truthful_custom _)) ⟨3, rfl⟩ rfl
+
+/-- downwards: allocate 24 bytes at 0x100A8, deallocate, allocate again: 0x100A8 again -/
+example : isLast dCfg (setCurPos exDown 0x100A8) 0x100A8 24 = true ∧
+    ∃ s2, deallocate dCfg (setCurPos exDown 0x100A8) 0x100A8 24 = .ok s2 ∧ curPos dCfg s2 = 0x100A8 + 24 ∧
+      tryCur dCfg .alloc s2 exL Hints.custom = .ok (some ((0x100A8, 0), setCurPos exDown 0x100A8)) :=
+  realloc_same_down dCfg exDown _ exL 0x100A8 0 rfl rfl (exDown_valid exL exL_valid _ (truthful_custom _)) ⟨3, rfl⟩ rfl
+
+/-- the 16-byte block that ends at the position grows to 32 bytes in place -/
+example : grow wCfg exUp 0x10030 16 { size := 32, align := 8 } =
+    .ok (setCurPos exUp (Spec.upAlign (0x10030 + 32) 8), .ok 0x10030) :=
+  grow_in_place_up wCfg exUp 0x10030 16 _ 0 exChunkUp rfl rfl rfl minAlign8 rfl rfl (by decide) (by decide) (by decide)
 
 end C13
